@@ -99,6 +99,15 @@ class LambdaV:
         self.key = "lambda@%d" % node.lineno
 
 
+def _tuple_like(v):
+    """Terms known to be Python tuples (shape tuples and their slices)."""
+    if isinstance(v, App) and v.fn == "shape":
+        return True
+    if isinstance(v, App) and v.fn == "getitem" and len(v.args) == 2 and isinstance(v.args[1], App) and v.args[1].fn == "slice":
+        return _tuple_like(v.args[0])
+    return False
+
+
 class PropV:
     """A property object built at run time: property(fget, fset)."""
 
@@ -469,6 +478,13 @@ class Evaluator:
                 if r is not NotImplemented:
                     return r
             sig = self.exec_block(fi.node.body, frame)
+            # in-place writes to a parameter's array are visible through the caller's name for it: record them for ex_Call
+            wb = []
+            for pname, v0 in bound.items():
+                v1 = frame.vars.get(pname)
+                if isinstance(v0, V) and isinstance(v1, App) and v1.fn == "store" and v1 != v0 and _chain_base(v1) == v0:
+                    wb.append((v0, v1))
+            self.writeback = wb
             if sig is not None and sig[0] == "return":
                 return sig[1]
             return Const(None)
@@ -649,11 +665,63 @@ class Evaluator:
 
     # ------------------------------------------------------------------ statements
     def exec_block(self, stmts, frame):
-        for st in stmts:
+        for i, st in enumerate(stmts):
+            if isinstance(st, ast.If) and self.merge_ifs:
+                sig = self.select_return(st, stmts[i + 1:], frame)
+                if sig is not None:
+                    return sig
             sig = self.exec_stmt(st, frame)
             if sig is not None:
                 return sig
         return None
+
+    def select_return(self, st, rest, fr):
+        """`if c: return e1` followed by `return e2` (or an else arm returning e2) with call-free expressions is one
+        value ite(c, e1, e2): the same treatment the merged rebinding `if` gets, so extracting such a helper does not fork paths."""
+        def ret_expr(body):
+            if len(body) == 1 and isinstance(body[0], ast.Return) and body[0].value is not None and self.pure_expr(body[0].value):
+                return body[0].value
+            return None
+        e1 = ret_expr(st.body)
+        e2 = ret_expr(st.orelse) if st.orelse else ret_expr(rest)
+        if e1 is None or e2 is None or not self.pure_expr(st.test):
+            return None
+        if any("random" in ast.unparse(x) or "rng" in ast.unparse(x) for x in (e1, e2)):
+            return None  # random draws keep one path per draw kind
+        c = self.truth(self.eval(st.test, fr))
+        if isinstance(c, Const):
+            return ("return", self.eval(e1 if c.value else e2, fr))
+        k = self.known_truth(c)
+        if k is not None:
+            return ("return", self.eval(e1 if k else e2, fr))
+        saved = list(self.pc)
+        self.pc.append((c, True))
+        a = self.eval(e1, fr)
+        self.pc = list(saved)
+        self.pc.append((c, False))
+        b = self.eval(e2, fr)
+        self.pc = saved
+
+        def sel(x, y):
+            if isinstance(x, Tup) and isinstance(y, Tup) and type(x) is type(y) and len(x.items) == len(y.items) \
+                    and not any(isinstance(i, Star) for i in x.items + y.items):
+                parts = [sel(p, q) for p, q in zip(x.items, y.items)]
+                return None if any(p is None for p in parts) else type(x)(parts)
+            if isinstance(x, V) and isinstance(y, V):
+                for z in (x, y):
+                    # values that steer later dispatch (names, flags, None) keep their own paths
+                    if isinstance(z, (EnumM, Top)) or (isinstance(z, Const) and (isinstance(z.value, (str, bool)) or z.value is None)):
+                        return None
+                return ite(c, x, y)
+            return None
+        if not (isinstance(a, Tup) and isinstance(b, Tup)):
+            # only the extracted form of the merged tuple rebinding `if c: x, y = e1, e2` is summarised; scalar selections keep
+            # their paths (rules read them path by path)
+            return None
+        v = sel(a, b)
+        if v is None:
+            return None
+        return ("return", v)
 
     def exec_stmt(self, st, fr):
         m = getattr(self, "st_" + type(st).__name__, None)
@@ -1227,6 +1295,11 @@ class Evaluator:
             ta = a if is_boolish(a) else App("mask", (a,))
             tb = b if is_boolish(b) else App("mask", (b,))
             return conj([ta, tb]) if op == "BitAnd" else disj([ta, tb])
+        if op == "Add" and (_tuple_like(a) or _tuple_like(b)) and (_tuple_like(a) or isinstance(a, Tup)) and (_tuple_like(b) or isinstance(b, Tup)) \
+                and not isinstance(a, Vec) and not isinstance(b, Vec):
+            # tuple concatenation keeps its order (shape tuples are not numbers)
+            fl = lambda x: list(x.items) if isinstance(x, Tup) else [Star(x)]
+            return Tup(fl(a) + fl(b))
         pa, pb = to_poly(a), to_poly(b)
         if self.raw_float and pa is not None and pb is not None and op in ("Add", "Sub", "Mult", "Div"):
             return App("f" + op, (a, b))
@@ -1419,7 +1492,20 @@ class Evaluator:
                     kwargs["**"] = v
             else:
                 kwargs[k.arg] = v
-        return self.call(f, args, kwargs, e)
+        self.writeback = []
+        res = self.call(f, args, kwargs, e)
+        wb, self.writeback = getattr(self, "writeback", []), []
+        if wb:
+            for an in list(e.args) + [k.value for k in e.keywords]:
+                if isinstance(an, (ast.Name, ast.Attribute)):
+                    try:
+                        cur = self.eval(an, fr)
+                    except Exception:
+                        continue
+                    for v0, v1 in wb:
+                        if isinstance(cur, V) and cur == v0:
+                            self.rebind(an, v1, fr)
+        return res
 
     def comp_generators(self, gens, fr, body):
         """Evaluate comprehension; returns list of values if concrete else None (then
